@@ -259,6 +259,18 @@ def t_grid(T, tier):
     grid_task(T, tier, core=True)
 
 
+def _merge(items):
+    out = []
+    for x in items:
+        if isinstance(x, str) and out and isinstance(out[-1], str):
+            out[-1] += x
+        elif isinstance(x, str) and x == '':
+            continue
+        else:
+            out.append(x)
+    return out
+
+
 # ------------------------------------------------------------------ parser.parse / dumper.dump shaping
 def t_framing(T, tier):
     pmod, dmod = 'hszinc.parser', 'hszinc.dumper'
@@ -305,7 +317,7 @@ def t_framing(T, tier):
     # dumper.dump: one grid -> its JSON text; a list -> '[' + ','.join(...) + ']'
     w = World()
     plug = HV.install(w)
-    w.contracts[dmod + '.dump_grid'] = lambda it, args, kw: Shape([Field('doc%d' % id(args[0]), A.sigma_star(), 'json_doc', args[0])])
+    w.contracts[dmod + '.dump_grid'] = lambda it, args, kw: Shape([Field('doc%d' % id(args[0]), A.sigma_star(), 'json_doc' if kw.get('mode') == 'application/json' else 'zinc_doc', args[0])])
 
     def isinst2(it, v, cls):
         name = getattr(cls, 'name', None)
@@ -316,10 +328,25 @@ def t_framing(T, tier):
 
     def run2(it):
         gcls = w.class_ref(extract.module('hszinc.grid'), 'Grid')
-        g1, g2 = SObj(gcls, {}), SObj(gcls, {})
-        r1 = it.call(w.function(dmod, 'dump'), [g1], {'mode': 'application/json'})
-        it.ctx.oblige('dump/ensures.single_grid_is_its_document', z3.BoolVal(isinstance(r1, Shape) and len(r1.parts) == 1 and r1.parts[0].den is g1))
-        r2 = it.call(w.function(dmod, 'dump'), [[g1, g2]], {'mode': 'application/json'})
-        ok = isinstance(r2, Shape) and [p.text if isinstance(p, Lit) else p.den for p in r2.parts] == ['[', g1, ',', g2, ']']
-        it.ctx.oblige('dump/ensures.list_of_grids_is_a_json_array_in_order', z3.BoolVal(bool(ok)))
+        gs = [SObj(gcls, {}) for _ in range(3)]
+        for mode, mname in (('application/json', 'json'), ('text/zinc', 'zinc')):
+            r1 = it.call(w.function(dmod, 'dump'), [gs[0]], {'mode': mode})
+            it.ctx.oblige('dump/%s/ensures.single_grid_is_its_document' % mname, z3.BoolVal(isinstance(r1, Shape) and len(r1.parts) == 1 and r1.parts[0].den is gs[0]))
+            # a LIST of n grids, for n = 0, 1, 2, 3 (the join is uniform): JSON array / ZINC documents separated by a blank line
+            for n in (0, 1, 2, 3):
+                r = it.call(w.function(dmod, 'dump'), [list(gs[:n])], {'mode': mode})
+                if isinstance(r, str):
+                    r = Shape([Lit(r)])
+                got = [p.text if isinstance(p, Lit) else p.den for p in r.parts] if isinstance(r, Shape) else None
+                if mname == 'json':
+                    want = ['['] + [x for i, g in enumerate(gs[:n]) for x in ([','] if i else []) + [g]] + [']']
+                    if n == 0:
+                        want = ['[]']
+                else:
+                    want = [x for i, g in enumerate(gs[:n]) for x in (['\n'] if i else []) + [g]]
+                ok = got is not None and _merge(got) == _merge(want)
+                o = it.ctx.oblige('dump/%s/ensures.list_of_%d_grids_is_%s' % (mname, n, 'a_json_array_in_order' if mname == 'json' else 'the_documents_joined_by_a_line_end'), z3.BoolVal(bool(ok)))
+                if not ok:
+                    o.reason = 'got %r' % (got,)
+                    o.witness = {'kind': 'framing', 'variant': 'dump_list_%d' % n, 'single': False}
     T.explore(w, run2, 'dump')
